@@ -45,6 +45,12 @@ def run(ctx, res):
     for i, lit in enumerate(["'1) first step'", "':('", "'a (b'", "'x) y) z'", "'(('"]):
         blocks.append(("table", "CREATE TABLE lit_%d (\n  id int,\n  note varchar(20) DEFAULT %s,\n  z int\n);" % (i, lit)))
         blocks.append(("table", "CREATE TABLE litc_%d (id int COMMENT %s, z int);" % (i, lit)))
+    # a table and an ALTER TABLE laid out over two lines, the action word (not one of CREATE / ALTER / DROP / SET) starting the
+    # continuation line; and one-line tables to follow them: a statement ends at its ';', wherever its lines break
+    for i, act in enumerate(["RENAME COLUMN a TO c", "ADD COLUMN d int", "MODIFY COLUMN a varchar(10)", "rename column b to e", "ADD d2 int",
+                             "ADD CONSTRAINT uq_x UNIQUE (a)"]):
+        blocks.append(("table_alter", "CREATE TABLE al_%d (a int, b int);\nALTER TABLE al_%d\n%s%s;" % (i, i, rng.choice(["", "  ", "\t"]), act)))
+        blocks.append(("table", "CREATE TABLE one_%d (x int, y varchar(5));" % i))
     unsup = [("unsup", s + ";") for s in UNSUP]
     sets = [("set", "SET search_path = public;"), ("set", "set hive.x.y = true;")]
     alone = {}
